@@ -8,9 +8,17 @@ resolved, and reported impossible only if it was not reported finished — what 
 reaction of the run loop panics and the loop stays alive.  Expression evaluation cannot panic the loop at all: a failing
 evaluation is reported through the error channel (`eval_failure_is_reported`).  The corrections the proof forced on the
 hand-written hypotheses are each backed by a kernel-checked counterexample (Arca/Proofs/LoopSafeCex.lean).
+
+Since the repair of finding F11 the completion callback (`Event.stepComplete`, OnStepComplete) marks every stage the step
+did not go through as unresolvable (`markRemainingStagesUnresolvable`).  The statements are the same; the contract of
+the new event is the one of a stage change; two hypotheses became necessary and are backed by counterexamples
+(Arca/Proofs/LoopFinishedCex.lean, restated below): the state invariant has the clause `LoopSafeInv.finished` (resolved
+stage / stage-output nodes belong to stages recorded in `finishedStages`), and `WF2` has `stage_unamb` (stage node ids
+are unambiguous; decidable, checked on every real prepared workflow by `arcadrv`).
 -/
 import Arca.Proofs.LoopSafe
 import Arca.Proofs.LoopSafeCex
+import Arca.Proofs.LoopFinishedCex
 import Arca.Proofs.LoopInv
 import Arca.Gen.Recover
 import Arca.Gen.Sinks
@@ -49,6 +57,25 @@ theorem dead_only_by_panic (P : Prepared) (fns : Fns) (ord : Order) (s : LoopSta
     (hs : s.dead = false) (hd : (react P fns ord s e).1.dead = true) :
     ∃ a ∈ (react P fns ord s e).2, a.isPanic = true :=
   react_dead_only_by_panic P fns ord s e hs hd
+
+/-- why `LoopSafeInv` has the clause `finished` now: with the state invariant as it was before the repair of F11 a legal
+    completion callback can panic (the loop marks a resolved stage node it does not find in `finishedStages`) -/
+theorem completion_needs_finished_bookkeeping :
+    ¬ (∀ (P : Prepared) (fns : Fns) (ord : Order), OrdOK ord → OrdNodup ord → P.WF2 → ∀ (s : LoopState) (e : Event),
+        LoopDagInv P s → ResolvedClosed s.dag → s.dag.ready.Nodup →
+        (∀ id ∈ s.dag.ready, isGroup P id → ¬ statusIs s.dag id St.resolved) →
+        (∀ n ∈ s.dag.nodes, n.status = St.resolved → isGroup P n.id → ∀ p ∈ n.out, p.2.hard = false) →
+        LegalEvent P s e →
+        (∀ a ∈ (react P fns ord s e).2, a.isPanic = false) ∧ ResolvedClosed (react P fns ord s e).1.dag) :=
+  SafeCex.react_needs_finished_inv
+
+/-- why `WF2` has the clause `stage_unamb` now: with `WF2` as it was before the repair of F11 (`SafeCex.WF2Prev`) a legal
+    history makes the loop panic when a stage node id can be read as a stage of two different steps -/
+theorem completion_needs_unambiguous_stage_ids :
+    ¬ (∀ (P : Prepared) (fns : Fns) (ord : Order), OrdOK ord → OrdNodup ord → SafeCex.WF2Prev P → ∀ h : List Event,
+        LegalHistory P fns ord (LoopState.init P) h →
+        (∀ a ∈ (run P fns ord h).2, a.isPanic = false) ∧ (run P fns ord h).1.dead = false) :=
+  SafeCex.hist_needs_stage_unamb
 
 /-- non-vacuity: `WF2` is satisfiable by a workflow with a dependency-group node -/
 example : SafeCex.PC.WF2 := SafeCex.PC_wf2
@@ -111,5 +138,10 @@ theorem positions_cover_lifecycle_inputs :
 
 /-- non-vacuity of the tables: there is a recover site, there are run-loop assertions, there is a guarded sink -/
 example : Arca.Gen.recoverSites ≠ [] ∧ Arca.Gen.runUncheckedAsserts ≠ [] ∧ Arca.Gen.builtinSinks ≠ [] := by decide
+
+/-- … and by a step with two stages, on which a history with a completion callback is legal and fine -/
+example : SafeCex.PG.WF2 := SafeCex.PG_wf2
+example : SafeCex.hasPanic (run SafeCex.PG SafeCex.fns0 id [.start .null, .stageChange "a" (some "s") none false,
+    .stepComplete "a" "t" none false]).2 = false := SafeCex.PG_run_fine
 
 end Arca.Props.C07
